@@ -173,15 +173,16 @@ PROPS = {
     "C16": {
         "level": "proof",
         "explanation": "The second sentence of the property (each vectorised scanning kernel returns the same answer as its scalar "
-                       "counterpart for every buffer and start offset) is PROVED: Verus checks the extracted text of all six kernel families "
-                       "-- find_newline, find_quote_or_escape, find_single_quote, count_leading_spaces (AVX2 + SSE2 + runtime dispatcher "
+                       "counterpart for every buffer and start offset) is PROVED: Verus checks the extracted text of all seven kernel families "
+                       "-- classify_yaml_chars (AVX2 + SSE2 + dispatcher, both HAS_CR settings: the nine per-lane masks and the width; it has no "
+                       "scalar counterpart, so the per-lane definition stands in; unit c16_classify), find_newline, find_quote_or_escape, find_single_quote, count_leading_spaces (AVX2 + SSE2 + runtime dispatcher "
                        "each), parse_anchor_name (scalar, AVX2, dispatcher) and find_block_scalar_end (scalar, AVX2, SSE2, dispatcher) -- for "
                        "buffers of every length and every start/end/min_indent against the scalar definitions (first byte of the class; "
                        "number of leading spaces; first terminator with the colon-lookahead rule; start of the first under-indented line), "
                        "with the scalar loops themselves proved equal to those definitions where they are loops (anchor, block scalar). The "
                        "x86 intrinsics are a lane model (set1/loadu/cmpeq/or/movemask as stubs with the SDM lane semantics) that Kani "
                        "cross-checks on the real intrinsics for all vectors; every vector load's in-bounds condition is a proof obligation. "
-                       "Kani additionally proves classify_yaml_chars per lane and runs every kernel against its scalar counterpart on 51-byte "
+                       "Kani additionally runs classify_yaml_chars on every 40-byte input and every kernel against its scalar counterpart on 51-byte "
                        "buffers (replayable counterexamples). The FIRST sentence (identical whole index and output across kernel "
                        "configurations) is NOT decided: it needs a proof about the 7k-line parser that consumes the kernels.",
         "trusted_base": COMMON_TRUST + ["Verus 0.2026.09.13 + Z3; intrinsic lane model verus/speclib_simd.rs (Kani c16_intrinsic_lanes_256/_128)",
